@@ -84,3 +84,51 @@ PROPS["C12"] = dict(
     unproved=["that every filestore primitive (create/delete/rename/append/replace/mkdir/rmdir/open/get_size) applies get_native_path to each "
               "of its names is established by the fs engine's before/after snapshot of a sentinel parent directory, not by a theorem"],
 )
+
+PROPS["C05"] = dict(
+    title="Every well-formed PDU survives encode then decode unchanged",
+    module="Cfdp.Props.C05",
+    namespace="Cfdp.Codec",
+    theorems=["C05_pdu", "C05_len", "C05_header", "C05_id", "C05_tlv", "C05_fsRequest", "C05_fsResponse", "C05_payload", "C05_enum_tables"],
+    engines=["codec"],
+    design="§6 C05",
+    technique="Lean 4 round-trip proofs over a byte-level codec model + regenerated enum tables + differential correspondence with PDU::encode/decode",
+    level_text=("Kernel-checked: for every PDU value within the wire format's own limits (explicit decidable predicate Pdu.WF) — every header field "
+                "combination, id widths 1/2/4/8, small and large file-size encodings, CRC on or off, all seven directives, both file-data forms, "
+                "all six metadata TLVs, filestore requests/responses — decode(encode p) = p (C05_pdu) and the number of bytes produced equals "
+                "encoded_len (+2 with CRC) for every value, well-formed or not (C05_len). Enum/code tables are regenerated from the Rust source on "
+                "every run (gen/enums.py) and re-proved injective. The model is tied to the code by decoding the same byte strings in both and "
+                "comparing a canonical rendering of the value, encoded_len and the re-encoding (50k strings quick)."),
+    level_note=("Trusted: Lean kernel; model<->code tie is differential; integers as Nat with range side conditions; String::from_utf8 modelled by an "
+                "executable UTF-8 validator; u16 arithmetic of encoded_len is modelled in Nat (no overflow below 65536). Reserved user operations "
+                "(user_ops.rs) and status reports (daemon.rs Report) are covered by the implementation-level round-trip oracle only (not yet in the Lean model)."),
+    rule=("codec engine: generated well-formed values of every PDU kind x id widths {1,2,4,8}^2 x {Small,Large} x CRC on/off x 6 (thorough 60) random instances "
+          "(boundary strings 0/1/254/255, sizes 0/1/max-1/max), all 128 discrete header bit combinations, then the malformed stream of C06. "
+          "Non-trivial = the implementation accepted the bytes (answer starts with ok)."),
+    assumptions=["values handed to encode respect the wire format's limits (Pdu.WF); outside them encode truncates silently (`as u8`) and the round trip is not claimed"],
+    unproved=["round trip of the 27 reserved user operations (user_ops.rs) and of status reports (Report): oracle only",
+              ],
+)
+
+PROPS["C06"] = dict(
+    title="Decoding arbitrary bytes never panics and what it accepts is canonical",
+    module="Cfdp.Props.C06",
+    namespace="Cfdp.Codec",
+    theorems=["C06_total", "C06_alloc"],
+    engines=["codec"],
+    design="§6 C06",
+    technique="Lean 4 totality proof over the codec model (panic outcome unreachable) + differential correspondence on a malformed byte stream with allocation counting",
+    level_text=("Kernel-checked: for every byte string the model decoder returns a PDU or an error and never its panic outcome (C06_total; the panic "
+                "outcome marks RecordContinuationState::from_u8(..).unwrap(), the fixed u16-2 / u8+1 sites are checked arithmetic now); the only "
+                "wire-controlled allocation is below 64 KiB (C06_alloc). 'Never loops' is Lean's termination check on the model decoders (fuel = input "
+                "length, each iteration consumes a byte). Tie to the code: 50k (thorough 2M) byte strings — every truncation and 9 single-byte mutations per "
+                "position of valid encodings, all prefixes <=4 over a 12-byte alphabet, forced length/flag fields, random tails — decoded by both; outcome class "
+                "(value rendering | error variant | panic) compared; a counting global allocator bounds the largest single allocation (256 KiB)."),
+    level_note=("Trusted: Lean kernel; differential tie; the harness is built with overflow-checks=on so that arithmetic overflow shows as a panic. "
+                "Canonical acceptance (re-encode with recomputed length, decode again, same PDU) is checked by the implementation-level oracle on every "
+                "accepted string but is not yet a theorem."),
+    rule=("codec engine malformed stream (see level_text). Non-trivial = accepted by the implementation or rejected with a variant other than ReadError."),
+    assumptions=[],
+    unproved=["C06_canon: decode bs = ok p -> WF (relen p) and decode (encode (relen p)) = ok (relen p)  (oracle only)",
+              "user operations / Report decoders (oracle only)"],
+)
